@@ -32,3 +32,19 @@ def validate(traces: list[dict], workdir: Path, tag: str = "traces", module: str
                              + "\n".join(r.out.splitlines()[-30:]))
     results.sort(key=lambda x: x["tid"])
     return {"results": results, "states": r.distinct, "generated": r.generated, "wall_s": r.wall_s}
+
+
+def chunks(traces: list[dict], max_n: int = 200, max_bytes: int = 24_000_000):
+    """Split a list of traces into runs of at most max_n traces and about max_bytes of JSON (TLC deserialises a chunk as
+    one value: a few big traces - hundreds of metaepochs, dozens of demes per snapshot - must not end up in one file)."""
+    out, cur, size = [], [], 0
+    for t in traces:
+        b = len(json.dumps(t["events"]))
+        if cur and (len(cur) >= max_n or size + b > max_bytes):
+            out.append(cur)
+            cur, size = [], 0
+        cur.append(t)
+        size += b
+    if cur:
+        out.append(cur)
+    return out
